@@ -84,6 +84,8 @@ fn fn_name(f: u32) -> &'static str {
         2 => "revoke_role",
         3 => "transfer_admin_role",
         4 => "renounce_admin",
+        5 => "set_role_admin",
+        6 => "renounce_role",
         10 => "bump",
         11 => "poke",
         12 => "fail",
@@ -314,6 +316,16 @@ impl Sim {
             }
             roles.push(if members.is_empty() { "-".to_string() } else { members.iter().map(|x| x.to_string()).collect::<Vec<_>>().join(".") });
         }
+        let mut radm = vec![];
+        for r in 0..4 {
+            let ra: Option<Symbol> = q("get_role_admin", args(e, [Symbol::new(e, ROLES[r]).into_val(e)]))
+                .and_then(|v| Option::<Symbol>::try_from_val(e, &v).ok())
+                .flatten();
+            radm.push(match ra {
+                Some(sym) => (0..4).find(|&i| Symbol::new(e, ROLES[i]) == sym).map(|i| i.to_string()).unwrap_or("?".into()),
+                None => "-".to_string(),
+            });
+        }
         let mut st = vec![];
         for k in 0..self.defs.len() {
             let id: Val = self.hashes[k].clone().into_val(e);
@@ -328,11 +340,12 @@ impl Sim {
             None => format!("{}:-:-", c),
         };
         format!(
-            "now={} min={} admin={} roles={} st={} calls={}",
+            "now={} min={} admin={} roles={} radm={} st={} calls={}",
             self.now,
             min.map(|m| m.to_string()).unwrap_or("-".into()),
             admin.map(|a| self.addr_index(&a)).unwrap_or("-".into()),
             roles.join("/"),
+            radm.join("/"),
             if st.is_empty() { "-".into() } else { st.join(",") },
             calls
         )
@@ -464,6 +477,8 @@ impl Sim {
             1 => format!("tc grant a={}", show_args(a)),
             2 => format!("tc revoke a={}", show_args(a)),
             3 => format!("tc transfer a={}", show_args(a)),
+            5 => format!("tc setradm a={}", show_args(a)),
+            6 => format!("tc renrole a={}", show_args(a)),
             _ => format!("tc renounce a={}", show_args(a)),
         };
         t.op(&format!("{} sig={} auth={}", line, show_sig(sig), show_toks(toks)));
@@ -561,6 +576,12 @@ impl Sim {
                 e.invoke_contract::<Option<u32>>(&self.ctl, &Symbol::new(e, "has_role"), args(e, [self.addr(i).into_val(e), Symbol::new(e, ROLES[r]).into_val(e)])).is_some()
             })
             .collect()
+    }
+    fn role_admin(&self, r: usize) -> Option<usize> {
+        let e = &self.e;
+        e.set_auths(&[]);
+        let ra = e.invoke_contract::<Option<Symbol>>(&self.ctl, &Symbol::new(e, "get_role_admin"), args(e, [Symbol::new(e, ROLES[r]).into_val(e)]));
+        ra.and_then(|sym| (0..4).find(|&i| Symbol::new(e, ROLES[i]) == sym))
     }
     fn admin_idx(&self) -> Option<usize> {
         let e = &self.e;
@@ -762,6 +783,54 @@ fn directed(t: &mut Trace) {
     s.advance(t, 30);
     s.exec(t, late, Some(3), &[Tok::Call(3)]);
     // ---------------------------------------------------------------------------------------
+    // the rest of the AccessControl surface: set_role_admin (admin-only, timelocked), grants and
+    // revokes by holders of a role's admin role (their own signature, no timelock), renounce_role
+    t.seq("directed role admins and renounce_role start=200 min=3 prop=1 exec=- admin=-");
+    let mut s = Sim::new(200, 3, &[1], &[], None);
+    let sra = s.def(t, od(0, 5, &[S(0), S(3)], Zero, 0)); // set_role_admin(proposer, other)
+    let g4 = s.def(t, od(0, 1, &[A(4), S(3), A(0)], Zero, 0)); // grant_role(4, other) by the controller
+    let rs = s.def(t, od(0, 6, &[S(3), A(0)], Zero, 0)); // renounce_role(other) by the controller (holds nothing)
+    // nobody gets these through without the timelock
+    s.admin(t, 5, &[S(0), S(3)], &Some(vec![]), &[]);
+    s.admin(t, 5, &[S(0), S(3)], &None, &[Tok::Call(1)]);
+    s.admin(t, 1, &[A(5), S(0), A(4)], &None, &[Tok::Call(4)]); // 4 holds nothing yet
+    s.sched(t, sra, 3, 1, &[Tok::Call(1)]);
+    s.sched(t, g4, 3, 1, &[Tok::Call(1)]);
+    s.sched(t, rs, 3, 1, &[Tok::Call(1)]);
+    s.admin(t, 5, &[S(0), S(3)], &Some(vec![md(Zero, 0, None)]), &[]); // waiting
+    s.advance(t, 3);
+    s.admin(t, 5, &[S(0), S(2)], &Some(vec![md(Zero, 0, None)]), &[]); // other arguments than scheduled
+    s.admin(t, 5, &[S(0), S(3)], &Some(vec![md(Zero, 0, None)]), &[]);
+    s.admin(t, 5, &[S(0), S(3)], &Some(vec![md(Zero, 0, None)]), &[]); // consumed
+    s.admin(t, 1, &[A(5), S(0), A(4)], &None, &[Tok::Call(4)]); // the admin role is set, but 4 does not hold it yet
+    s.admin(t, 1, &[A(2), S(0), A(1)], &None, &[Tok::Call(1)]); // 1 holds `proposer` itself, not its admin role
+    s.admin(t, 2, &[A(1), S(0), A(1)], &None, &[Tok::Call(1)]);
+    s.admin(t, 1, &[A(4), S(3), A(0)], &Some(vec![md(Zero, 0, None)]), &[]);
+    s.admin(t, 6, &[S(3), A(0)], &Some(vec![md(Zero, 0, None)]), &[]); // the controller holds no role: refused, nothing consumed
+    // 4 holds `other` = the admin role of `proposer`: every authorization subset
+    for toks in [vec![], vec![Tok::Call(5)], vec![Tok::Call(1), Tok::Call(5)], vec![Tok::Call(4)]] {
+        s.admin(t, 1, &[A(5), S(0), A(4)], &None, &toks);
+    }
+    s.admin(t, 1, &[A(5), S(0), A(4)], &None, &[Tok::Call(4), Tok::Call(5)]); // already a member: accepted, no change
+    s.admin(t, 1, &[A(5), S(2), A(4)], &None, &[Tok::Call(4)]); // `canceller` has no admin role
+    s.admin(t, 1, &[A(5), S(3), A(4)], &None, &[Tok::Call(4)]); // nor has `other` itself
+    s.admin(t, 1, &[A(2), S(0), A(5)], &None, &[Tok::Call(5)]); // 5 is a proposer, not a holder of `other`
+    s.admin(t, 1, &[A(2), S(0), A(4)], &Some(vec![]), &[]); // an empty payload of the controller is no signature of 4
+    s.sched(t, rs, 3, 5, &[Tok::Call(5)]); // already scheduled; 5 is a proposer now
+    for toks in [vec![], vec![Tok::Call(1)], vec![Tok::Call(4)]] {
+        s.admin(t, 2, &[A(1), S(0), A(4)], &None, &toks); // 4 revokes proposer 1
+    }
+    s.admin(t, 2, &[A(1), S(0), A(4)], &None, &[Tok::Call(4)]); // not held any more
+    s.sched(t, g4, 3, 1, &[Tok::Call(1)]); // 1 is no proposer any more (and g4 is done)
+    // renounce_role: only the holder itself, with its own signature
+    for toks in [vec![], vec![Tok::Call(4)], vec![Tok::Call(5)]] {
+        s.admin(t, 6, &[S(0), A(5)], &None, &toks);
+    }
+    s.admin(t, 6, &[S(0), A(5)], &None, &[Tok::Call(5)]); // not held any more
+    s.admin(t, 6, &[S(1), A(4)], &None, &[Tok::Call(4)]); // never held
+    s.admin(t, 6, &[S(3), A(4)], &None, &[Tok::Call(4)]); // 4 gives up the admin role ...
+    s.admin(t, 1, &[A(5), S(0), A(4)], &None, &[Tok::Call(4)]); // ... and can grant no more
+    // ---------------------------------------------------------------------------------------
     t.seq("directed external admin from the start start=10 min=1 prop=2 exec=1 admin=4");
     let mut s = Sim::new(10, 1, &[2], &[1], Some(4));
     s.admin(t, 0, &[U(3)], &Some(vec![]), &[]);
@@ -803,9 +872,10 @@ fn gen_defs(rng: &mut Rng, s: &mut Sim, t: &mut Trace, cfg: &Cfg) {
         let acct = 1 + rng.below(NACC as u64) as usize;
         let d = match rng.below(12) {
             0 | 1 | 2 | 3 => od(0, 0, &[U(rng.below(4) as u32)], pred, salt),
-            4 | 5 => od(0, 1, &[A(acct), S(rng.below(3) as usize), A(caller)], pred, salt),
+            4 | 5 => od(0, 1, &[A(acct), S(if rng.chance(35) { 3 } else { rng.below(3) as usize }), A(caller)], pred, salt),
             6 => od(0, 2, &[A(acct), S(rng.below(3) as usize), A(caller)], pred, salt),
-            7 => od(0, 3, &[A(acct), U(s.now + 100_000)], pred, salt),
+            7 if rng.chance(50) => od(0, 3, &[A(acct), U(s.now + 100_000)], pred, salt),
+            7 => od(0, 5, &[S(rng.below(3) as usize), S(3)], pred, salt),
             8 | 11 => od(9, 10 + rng.below(3) as u32, &[U(rng.below(3) as u32)], pred, salt),
             9 if k > 0 => s.defs[rng.below(k as u64) as usize].clone(), // duplicate tuple
             10 if k > 0 => {
@@ -1081,6 +1151,34 @@ fn main() {
             } else if r < 84 {
                 let who = 1 + rng.below(NACC as u64) as usize;
                 s.accept(&mut t, &[Tok::Call(who)]);
+            } else if r < 90 {
+                // grant / revoke / renounce_role by an ordinary caller: a holder of the role's admin
+                // role mostly, with any subset of signatures
+                let role = rng.below(4) as usize;
+                let holders = s.role_admin(role).map(|ar| s.members(ar)).unwrap_or_default();
+                let caller = if !holders.is_empty() && rng.chance(70) { *rng.pick(&holders) } else { 1 + rng.below(NACC as u64) as usize };
+                let acct = 1 + rng.below(NACC as u64) as usize;
+                let mut toks = vec![];
+                for i in 1..=NACC {
+                    if (i == caller && rng.chance(75)) || (i != caller && rng.chance(12)) {
+                        toks.push(Tok::Call(i));
+                    }
+                }
+                let sig = if rng.chance(15) { Some(vec![]) } else { None };
+                match rng.below(5) {
+                    0 | 1 => s.admin(&mut t, 1, &[Arg::A(acct), Arg::S(role), Arg::A(caller)], &sig, &toks),
+                    2 => {
+                        let mem = s.members(role);
+                        let acct = if !mem.is_empty() && rng.chance(70) { *rng.pick(&mem) } else { acct };
+                        s.admin(&mut t, 2, &[Arg::A(acct), Arg::S(role), Arg::A(caller)], &sig, &toks)
+                    }
+                    _ => {
+                        let mem = s.members(role);
+                        let who = if !mem.is_empty() && rng.chance(60) { *rng.pick(&mem) } else { caller };
+                        let toks = if rng.chance(70) { vec![Tok::Call(who)] } else { toks };
+                        s.admin(&mut t, 6, &[Arg::S(role), Arg::A(who)], &sig, &toks)
+                    }
+                };
             } else {
                 let waiting: Vec<u32> = (0..n).map(|j| s.ledger_of(j)).filter(|&l| l > s.now && (l - s.now) < (if long { 4_000_000 } else { 100 })).collect();
                 let nn = if !waiting.is_empty() && rng.chance(70) {
